@@ -186,9 +186,14 @@ class Canon:
                 Xs = self.canon(S[2][0])
                 return ('at', Xs, pos), [('rows', Xs)]
             if name.endswith('Iterator::enumerate') and len(S[2]) == 1:
+                nf = len(getattr(self, 'filters', {}).get(L, []))
                 r = self.elem_of(S[2][0], L, pos)
                 if r is None:
                     return None
+                if len(getattr(self, 'filters', {}).get(L, [])) != nf:
+                    # enumerate *after* a filter counts the elements that passed it: a rank, not the position in the underlying sequence
+                    # (seed C16-10: `.filter(..).enumerate()` used the rank among the active sequences as a sequence index)
+                    return ('agg', 'tuple', (('rank', L), r[0])), r[1]
                 return ('agg', 'tuple', (pos, r[0])), r[1]
             if name.endswith('Iterator::zip') and len(S[2]) == 2:
                 a, b = self.elem_of(S[2][0], L, pos), self.elem_of(S[2][1], L, pos)
